@@ -1,7 +1,7 @@
 (* C09 - proofs about coq/Literal/Model.v *)
 From Coq Require Import List NArith ZArith Bool Lia.
 Import ListNotations.
-From RV Require Import Literal.Model.
+From RV Require Import Literal.Model Literal.Token.
 Local Open Scope N_scope.
 
 (* ------------------------------------------------------------------ *)
@@ -382,26 +382,39 @@ Qed.
 (* string family: the value is the string offered; in the XSD lexical spaces the
    white-space rewriting is the identity except for what str.strip() strips *)
 
-Lemma norm_ws_id : forall s, no_tab_nl s = true -> norm_ws s = s.
-Proof.
-  induction s as [|c r IH]; intro H; [reflexivity|].
-  cbn in H. apply andb_true_iff in H. destruct H as [Hc Hr].
-  unfold norm_ws in *. cbn [map]. rewrite (IH Hr). apply negb_true_iff in Hc. rewrite Hc. reflexivity.
-Qed.
-
 Lemma str_construct : forall d l norm, family_of d = FamStr ->
   construct d l norm = {| l_lex := post d l; l_ill := (match d with DPlain => None | _ => Some false end);
-                          l_val := Some (VStr l) |}.
+                          l_val := Some (VStr (if is_ws_type d then post d l else l)) |}.
 Proof.
   intros d l norm H. unfold construct, parse_m. rewrite (str_rows d H). cbn [parse_with check_with negb].
   rewrite (proj1 (proj2 (proj2 rules_shape)) l). cbn [fst].
   destruct d; try discriminate; destruct norm; reflexivity.
 Qed.
 
-Lemma normalized_string_valid_kept : forall l, xsd_value DNormalizedString l = Some (XStr l) -> post DNormalizedString l = l.
+(* the stored value of a string-family literal is its stored form *)
+Lemma str_value_is_form : forall d l norm, family_of d = FamStr ->
+  l_val (construct d l norm) = Some (VStr (l_lex (construct d l norm))) .
 Proof.
-  intros l H. unfold xsd_value in H. cbn in H. destruct (no_tab_nl l) eqn:E; [|discriminate].
-  apply norm_ws_id. exact E.
+  intros d l norm H. rewrite (str_construct d l norm H). cbn [l_val l_lex].
+  destruct d; try discriminate; reflexivity.
+Qed.
+
+(* a form in the lexical space is kept as it is *)
+Lemma str_valid_kept : forall d l xv, family_of d = FamStr -> xsd_value d l = Some xv -> post d l = l /\ xv = XStr l.
+Proof.
+  intros d l xv H V. unfold xsd_value in V. rewrite H in V.
+  destruct d; try discriminate; try (inversion V; split; reflexivity).
+  - destruct (no_tab_nl l) eqn:E; [|discriminate]. inversion V. split; [apply post_nstring_valid; exact E|reflexivity].
+  - destruct (xsd_token_ok l) eqn:E; [|discriminate]. inversion V. split; [apply post_token_valid; exact E|reflexivity].
+Qed.
+
+(* whatever is offered, the stored form is in the lexical space and the value is that form *)
+Lemma str_stored_valid : forall d s, family_of d = FamStr -> xsd_value d (post d s) = Some (XStr (post d s)).
+Proof.
+  intros d s H. unfold xsd_value. rewrite H.
+  destruct d; try discriminate; try reflexivity.
+  - rewrite post_nstring_ok. reflexivity.
+  - rewrite post_token_ok. reflexivity.
 Qed.
 
 (* ------------------------------------------------------------------ *)
@@ -458,8 +471,13 @@ Proof.
       destruct d; try reflexivity; exfalso; revert E;
         (match goal with |- context [row_of ?x] => let r := eval vm_compute in (row_of x) in change (row_of x) with r end);
         cbn [parse_with]; try (destruct (py_int l); discriminate); try (destruct (py_decimal l); discriminate); discriminate. }
+    (* the value is the stored form, re-processing it changes nothing *)
+    assert (Hp : post d s = s).
+    { subst x. rewrite (str_construct d l norm Hs) in E. cbn [l_val] in E. injection E as E'.
+      destruct (is_ws_type d) eqn:W; [subst s; apply post_idem|].
+      destruct d; try discriminate; reflexivity. }
     rewrite (str_construct d s _ Hs). unfold normalize_m. cbn [l_val literal_of_value].
-    rewrite (str_construct d s _ Hs). reflexivity.
+    rewrite Hp. destruct (is_ws_type d); rewrite (str_construct d s _ Hs), Hp; destruct (is_ws_type d); reflexivity.
   - unfold normalize_m. rewrite E. reflexivity.
 Qed.
 
@@ -497,207 +515,3 @@ Proof.
   subst. rewrite Z.eqb_refl. reflexivity.
 Qed.
 
-(* ------------------------------------------------------------------ *)
-(* the specification checker accepts the model (integer datatypes and the
-   conformance-only cases; the other families are tied by the run only) *)
-
-Definition wf_core (c : case) : bool :=
-  match c with
-  | CLex d _ _ => is_int_dt d
-  | CConf _ _ => true
-  | _ => false
-  end.
-
-Lemma int_dt_eqb_facts : forall d, is_int_dt d = true ->
-  dt_eqb (coalesce_string d) DString = false /\ dt_eqb (coalesce_string d) (coalesce_string d) = true /\ dt_eqb d d = true.
-Proof. destruct d; intro H; try discriminate; vm_compute; repeat split. Qed.
-
-Lemma val_eqb_int_refl : forall z, val_eqb (VInt z) (VInt z) = true.
-Proof. intro z. cbn. apply Z.eqb_refl. Qed.
-
-(* x.eq(x.normalize()) is True whenever both are the same term; in fact always *)
-Lemma int_eq_normalized : forall d l norm, is_int_dt d = true ->
-  eq_m d (construct d l norm) d (normalize_m d (construct d l norm)) = ETrue.
-Proof.
-  intros d l norm Hd. destruct (int_row_facts d Hd) as (ck & Row & _).
-  destruct (int_dt_eqb_facts d Hd) as (F1 & F2 & F3).
-  unfold normalize_m.
-  assert (Hv : l_val (construct d l norm) = match py_int l with Some z => Some (VInt z) | None => None end).
-  { unfold construct, parse_m. rewrite Row. reflexivity. }
-  rewrite Hv. destruct (py_int l) as [z|] eqn:E.
-  - cbn [literal_of_value]. rewrite (int_from_python d Hd z).
-    unfold eq_m. rewrite Hv. cbn [l_val l_ill l_lex].
-    rewrite F1, F2. cbn [andb negb]. rewrite val_eqb_int_refl.
-    destruct (is_numeric d && is_numeric d && not_ill (construct d l norm) && not_ill _); reflexivity.
-  - unfold eq_m. rewrite Hv. rewrite F1, F2. cbn [andb negb]. rewrite str_eqb_refl.
-    destruct (is_numeric d && is_numeric d && not_ill (construct d l norm) && not_ill (construct d l norm)); reflexivity.
-Qed.
-
-Lemma opt_val_same_refl : forall v, opt_eqb val_same v v = true.
-Proof.
-  destruct v as [v|]; [|reflexivity]. cbn. destruct v; cbn.
-  - apply Z.eqb_refl.
-  - destruct b; reflexivity.
-  - destruct d as [n c e|n|n]; cbn; try (destruct n; reflexivity).
-    rewrite N.eqb_refl, Z.eqb_refl. destruct n; reflexivity.
-  - apply str_eqb_refl.
-  - reflexivity.
-Qed.
-
-Lemma ill_ok_int : forall d b, is_int_dt d = true -> ill_ok d (Some b) b = true.
-Proof. destruct d; intros b H; try discriminate; destruct b; reflexivity. Qed.
-
-Lemma opt_eqb_Z_eq : forall a b, opt_eqb Z.eqb a b = true -> a = b.
-Proof. intros [a|] [b|] H; cbn in H; try discriminate; try reflexivity. apply Z.eqb_eq in H. congruence. Qed.
-
-(* where the code's check is exactly the XSD range, an out-of-range XSD integer is flagged *)
-Lemma int_exact_flags : forall d l z norm, is_int_dt d = true -> int_row_exact d = true ->
-  xsd_int_lex l = Some z -> in_range (xsd_range d) z = false -> l_ill (construct d l norm) = Some true.
-Proof.
-  intros d l z norm Hd Hx L R. unfold construct, parse_m. unfold int_row_exact in Hx.
-  destruct (row_of d) as [[[cv ck] nu]|]; [|discriminate].
-  destruct cv; try discriminate. destruct ck as [| |acc|lo hi ne]; try discriminate; destruct nu; try discriminate.
-  - destruct (xsd_range d) as [[?|] [?|]]; try discriminate.
-  - destruct (xsd_range d) as [lo' hi']. apply andb_true_iff in Hx. destruct Hx as [H1 H2].
-    apply opt_eqb_Z_eq in H1, H2. subst lo' hi'.
-    cbn [parse_with l_ill]. rewrite (py_int_xsd _ _ L), (is_int_dt_plain d Hd). cbn [check_with].
-    unfold in_range in R. cbn [fst snd] in R.
-    rewrite <- andb_assoc, R, andb_false_r. reflexivity.
-Qed.
-
-Lemma not_exact_is_long : forall d, is_int_dt d = true -> int_row_exact d = false -> is_unbounded_long d = true.
-Proof.
-  intros d Hd Hx.
-  assert (I : In d (filter (fun d => is_int_dt d && negb (int_row_exact d)) all_dt)).
-  { apply filter_In. split; [apply all_dt_complete|]. rewrite Hd, Hx. reflexivity. }
-  rewrite int_rows_exact in I. destruct I as [<-|[<-|[]]]; reflexivity.
-Qed.
-
-Lemma spec_ok_model_core : forall c, wf_core c = true -> kf c = 0 -> spec_ok c (model_obs c) = true.
-Proof.
-  intros [d l norm|v|d1 l1 n1 d2 l2 n2|fam region] W K; try discriminate.
-  - (* an integer datatype *)
-    cbn [wf_core] in W. rename W into Hd.
-    cbn [model_obs spec_ok].
-    rewrite (int_eq_normalized d l norm Hd).
-    rewrite (normalize_m_idempotent d l norm), str_eqb_refl, opt_val_same_refl.
-    assert (Hre : implb' norm (str_eqb (l_lex (construct d (l_lex (construct d l norm)) true)) (l_lex (construct d l norm))) = true).
-    { destruct norm; [|reflexivity]. cbn [implb'].
-      rewrite (proj1 (int_construct_idempotent d l Hd)). apply str_eqb_refl. }
-    rewrite Hre. cbn [eqres_eqb andb].
-    assert (Himp : forall b, implb' b true = true) by (destruct b; reflexivity). rewrite Himp, !andb_true_r.
-    destruct (xsd_value d l) as [xv|] eqn:V.
-    + destruct (xsd_value_int d l xv Hd V) as (z & L & E & R). subst xv.
-      destruct (int_faithful_all d Hd) as (_ & F).
-      destruct (F l z norm V) as (I1 & I2 & I3 & I4 & _ & _).
-      rewrite I4.
-      rewrite (int_construct_valid d Hd l z norm V). cbn [l_lex l_val l_ill].
-      assert (V' : xsd_value d (if norm then print_z z else l) = Some (XNum z O))
-        by (destruct norm; [apply int_print_valid; assumption|exact V]).
-      rewrite (int_construct_valid d Hd _ z true V'). cbn [l_val l_lex l_ill].
-      unfold denotes, lex_denotes. cbn [denote].
-      rewrite V', (int_print_valid d Hd z R), xval_eqb_num_refl, (ill_ok_int d false Hd).
-      cbn [andb]. destruct norm; cbn [orb andb]; [reflexivity|]. rewrite str_eqb_refl. reflexivity.
-    + (* outside the lexical space and no trigger: the model flags it *)
-      cbn [kf] in K. rewrite V in K.
-      assert (Hill : l_ill (construct d l norm) = l_ill (construct d l false)) by reflexivity.
-      rewrite Hill.
-      destruct (accepted d l) eqn:A.
-      * (* accepted: only possible outside the trigger if the form is an out-of-range XSD integer *)
-        assert (Hf : family_of d = FamInt) by (unfold is_int_dt in Hd; destruct (family_of d); try discriminate; reflexivity).
-        rewrite Hf in K. destruct (xsd_int_lex l) as [z|] eqn:L; [|discriminate].
-        destruct (is_unbounded_long d) eqn:U; [discriminate|].
-        assert (Hx : int_row_exact d = true).
-        { destruct (int_row_exact d) eqn:X; [reflexivity|]. rewrite (not_exact_is_long d Hd X) in U. discriminate. }
-        assert (R : in_range (xsd_range d) z = false).
-        { unfold xsd_value in V. rewrite Hf, L in V. unfold in_range.
-          destruct (xsd_range d) as [lo hi]. cbn [fst snd].
-          destruct (zle_opt_l lo z && zle_opt_r z hi); [discriminate|reflexivity]. }
-        rewrite (int_exact_flags d l z false Hd Hx L R). apply ill_ok_int. exact Hd.
-      * unfold accepted in A.
-        destruct (l_ill (construct d l false)) as [[|]|] eqn:I; try discriminate.
-        apply ill_ok_int. exact Hd.
-  - (* conformance-only case outside every finding region *)
-    cbn [kf] in K. cbn [model_obs spec_ok].
-    unfold conf_expected.
-    destruct region as [|p]; [reflexivity|].
-    do 3 (destruct p as [p|p|]; try discriminate; try reflexivity).
-Qed.
-
-(* ------------------------------------------------------------------ *)
-(* refutations: the full property does not hold of the code as modelled *)
-
-(* F14c: "1_0" is not in the lexical space of xsd:integer but is accepted, unflagged, as 10 *)
-Lemma overaccept_refuted : exists d l,
-  xsd_value d l = None /\ l_ill (construct d l true) = Some false /\ l_val (construct d l true) = Some (VInt 10).
-Proof. exists DInteger, [49; 95; 48]. vm_compute. repeat split. Qed.
-
-(* F14c: 2^63 is accepted as xsd:long *)
-Lemma long_range_refuted : exists l,
-  xsd_value DLong l = None /\ xsd_value DInteger l <> None /\ l_ill (construct DLong l true) = Some false.
-Proof.
-  exists [57; 50; 50; 51; 51; 55; 50; 48; 51; 54; 56; 53; 52; 55; 55; 53; 56; 48; 56].
-  vm_compute. repeat split. discriminate.
-Qed.
-
-(* F14d: NBSP x is a valid token whose stored form is x: another value *)
-Lemma token_strip_refuted : exists l,
-  xsd_value DToken l = Some (XStr l)
-  /\ xsd_value DToken (l_lex (construct DToken l false)) <> Some (XStr l).
-Proof. exists [160; 120]. vm_compute. split; [reflexivity|discriminate]. Qed.
-
-(* F14d: equal terms, eq says False *)
-Lemma same_not_eq_refuted : exists d l1 l2,
-  term_eq d (construct d l1 true) d (construct d l2 true) = true
-  /\ eq_m d (construct d l1 true) d (construct d l2 true) = EFalse.
-Proof. exists DNormalizedString, [97; 9; 98], [97; 32; 98]. vm_compute. split; reflexivity. Qed.
-
-(* F14b: Decimal('NaN') is given datatype xsd:decimal and the form NaN *)
-Lemma decimal_nan_refuted :
-  dt_of_name (snd (cast_python (VDec (DNaN false)))) = RDt DDecimal
-  /\ xsd_value DDecimal (fst (cast_python (VDec (DNaN false)))) = None.
-Proof. vm_compute. split; reflexivity. Qed.
-
-(* ------------------------------------------------------------------ *)
-(* Prop-level readings of the checker *)
-
-Lemma eqres_eqb_true : forall e, eqres_eqb e ETrue = true -> e = ETrue.
-Proof. destruct e; cbn; congruence. Qed.
-
-Lemma spec_ok_lex_valid_reading : forall d l norm x n1 n2 re e same xv,
-  spec_ok (CLex d l norm) (OLex x n1 n2 re e same) = true -> xsd_value d l = Some xv ->
-  ill_ok d (l_ill x) false = true /\ denotes (l_val x) xv = true /\ lex_denotes d (l_lex x) xv = true
-  /\ denotes (l_val n1) xv = true /\ lex_denotes d (l_lex n1) xv = true
-  /\ l_lex n2 = l_lex n1 /\ (norm = true -> l_lex re = l_lex x) /\ e = ETrue.
-Proof.
-  intros d l norm x n1 n2 re e same xv H V. cbn [spec_ok] in H. rewrite V in H.
-  repeat (apply andb_true_iff in H; destruct H as [H ?]).
-  repeat split; try assumption.
-  - apply str_eqb_eq. assumption.
-  - intro Hn. subst norm. cbn [implb'] in *. apply str_eqb_eq. assumption.
-  - apply eqres_eqb_true. assumption.
-Qed.
-
-Lemma spec_ok_lex_invalid_reading : forall d l norm x n1 n2 re e same,
-  spec_ok (CLex d l norm) (OLex x n1 n2 re e same) = true -> xsd_value d l = None ->
-  ill_ok d (l_ill x) true = true /\ l_lex n2 = l_lex n1 /\ (same = true -> e = ETrue).
-Proof.
-  intros d l norm x n1 n2 re e same H V. cbn [spec_ok] in H. rewrite V in H.
-  repeat (apply andb_true_iff in H; destruct H as [H ?]).
-  repeat split; try assumption.
-  - apply str_eqb_eq. assumption.
-  - intro Hs. subst same. cbn [implb'] in *. apply eqres_eqb_true. assumption.
-Qed.
-
-Lemma spec_ok_eq_reading : forall d1 l1 n1 d2 l2 n2 same e x1 x2,
-  spec_ok (CEq d1 l1 n1 d2 l2 n2) (OEq same e) = true ->
-  (same = true -> e = ETrue)
-  /\ (xsd_value d1 l1 = Some x1 -> xsd_value d2 l2 = Some x2 -> comparable d1 d2 = true ->
-      e = eqres_of (xval_eqb x1 x2)).
-Proof.
-  intros d1 l1 n1 d2 l2 n2 same e x1 x2 H. cbn [spec_ok] in H.
-  apply andb_true_iff in H. destruct H as [H1 H2]. split.
-  - intro Hs. subst same. apply eqres_eqb_true. exact H1.
-  - intros V1 V2 C. rewrite V1, V2, C in H2.
-    destruct e, (xval_eqb x1 x2); cbn in *; congruence.
-Qed.
